@@ -78,3 +78,54 @@ func H_C15_ldap_duration_inverse() {
 	vCheck(ConvertLDAPDurationToSeconds(s) == secs, "ldap/duration/inverse")
 	vCover("end")
 }
+
+// Boundary instants as concrete values: the executor evaluates concrete floating-point and other unmodelled arithmetic
+// natively, so that an implementation which leaves integer arithmetic is decided on exactly the instants where rounding shows.
+var c15instants = [12][2]int64{
+	{-11644473600, 0},         // 1601-01-01
+	{-11644473600, 100},       // first tick
+	{-1, 999999900},           // last tick before 1970
+	{0, 0},                    // 1970
+	{-9223372037, 145224200},  // int64-nanosecond lower limit (1677)
+	{9223372036, 854775800},   // int64-nanosecond upper limit (2262)
+	{103633084800, 0},         // about year 5254
+	{103633084801, 100},       // just past it, odd tick count
+	{127174492801, 0},         // 6000-01-01 00:00:01
+	{253402300799, 999999900}, // 9999-12-31 23:59:59.9999999
+	{910692730085, 477580700}, // 30828-09-14 02:48:05.4775807: tick count 2^63-1
+	{910692730084, 999999900},
+}
+
+func H_C15_ldap_unix_to_timestamp_samples() {
+	c := c15instants[vParam("sample")]
+	got := ConvertUnixTimeStampToLDAPTimeStamp(time.Unix(c[0], c[1]))
+	vCheck(got == (c[0]+11644473600)*10000000, "ldap/unix-to-timestamp/boundary-instants-exact")
+	// and back (whole seconds; instants before 1970 map to 0 by the function's contract)
+	back := ConvertLDAPTimeStampToUnixTimeStamp(refDecimalI(got))
+	if c[0] >= 0 {
+		vCheck(back == c[0], "ldap/unix-to-timestamp/boundary-instants-round-trip")
+	} else {
+		vCheck(back == 0, "ldap/unix-to-timestamp/boundary-instants-before-1970-give-0")
+	}
+	vCover("end")
+}
+
+func refDecimalI(v int64) string {
+	if v == 0 {
+		return "0"
+	}
+	neg := v < 0
+	u := uint64(v)
+	if neg {
+		u = -u
+	}
+	var b []byte
+	for u > 0 {
+		b = append([]byte{byte('0' + u%10)}, b...)
+		u /= 10
+	}
+	if neg {
+		return "-" + string(b)
+	}
+	return string(b)
+}
